@@ -849,6 +849,8 @@ def name_program(pid, cfg, names, lookups=None, origin="names"):
     for j, (kind, nm) in enumerate(lookups or []):
         if kind == "rename":
             ops.append({"op": "rename", "at": "D", "src": nm[0], "to": "D", "dst": nm[1]})
+        elif kind == "remove":
+            ops.append({"op": "remove", "at": "D", "path": nm})
         else:
             ops.append({"op": "open_file", "at": "D", "path": nm, "as": "l%d" % j})
             ops.append({"op": "close", "h": "l%d" % j})
@@ -912,6 +914,10 @@ def name_sets(rng, fold, quick=True):
     rng.shuffle(shapes)
     for i in range(0, len(shapes), 12):
         batches.append((shapes[i:i + 12], [("open", x.upper()) for x in shapes[i:i + 12][:3]]))
+    # (c3) a name and the same name with one trailing dot (distinct long names for this library, one 8.3 form): order matters
+    batches.append((["report", "report.", "DATA", "data.", "x.", "x", "readme.txt", "readme.txt."],
+                    [("open", "REPORT"), ("open", "REPORT."), ("open", "Data"), ("open", "X"), ("open", "X."), ("remove", "report"), ("open", "report"),
+                     ("open", "report."), ("rename", ("DATA", "moved.")), ("open", "moved"), ("open", "moved.")]))
     # (d) case pairs and near misses
     keys = sorted(int(k) for k in fold)
     pick = keys if not quick else keys[::9] + [223, 454, 0x149, 0x1F0, 0x390, 0x3B0, 0xFB00, 0xFB06, 0x1E96]
@@ -1090,7 +1096,8 @@ def stamp_program(rng, pid, cfg, triples, atime=False):
 
 def clock_program(rng, pid, cfg, cs, n_ops, atime):
     """stamping rules under the harness clock: create, write, read (access date), rename, operations on other entries"""
-    cfg = dict(cfg, atime=atime)
+    # (the order of the FsOptions builder calls and the strict flag are free: none of them may touch the access-date option)
+    cfg = dict(cfg, atime=atime, optord=rng.randrange(5), strict=rng.random() < 0.7)
     ops = []
     files = []
     hs = {}
@@ -1492,6 +1499,18 @@ def large_program(rng, pid, kind, hint):
            {"op": "read_all", "h": "g2", "len": 2 * cs},
            {"op": "extents", "h": "g2"},
            {"op": "close", "h": "g2"},
+           # entries whose clusters lie far out are renamed, moved into a directory and back, a directory is moved
+           {"op": "rename", "at": "", "src": "big one.dat", "to": "", "dst": "dir/big moved.dat"},
+           {"op": "open_file", "at": "", "path": "dir/big moved.dat", "as": "g3"},
+           {"op": "read_all", "h": "g3", "len": 2 * cs},
+           {"op": "extents", "h": "g3"},
+           {"op": "close", "h": "g3"},
+           {"op": "create_dir", "at": "", "path": "far dir"},
+           {"op": "rename", "at": "", "src": "dir/second.dat", "to": "", "dst": "far dir/second.dat"},
+           {"op": "rename", "at": "", "src": "far dir", "to": "", "dst": "dir/far dir"},
+           {"op": "list", "at": "", "path": "dir/far dir"},
+           {"op": "rename", "at": "", "src": "dir/far dir/second.dat", "to": "", "dst": "dir/second.dat"},
+           {"op": "rename", "at": "", "src": "dir/big moved.dat", "to": "", "dst": "big one.dat"},
            {"op": "unmount"},
            {"op": "remove", "at": "", "path": "big one.dat"},
            {"op": "stats"},
